@@ -16,7 +16,20 @@ use std::sync::atomic::{AtomicBool, AtomicU64, Ordering};
 use std::sync::Mutex;
 use std::time::Instant;
 
-pub const VERIF_ROOT: &str = "/verif";
+/// the verification root: the directory the `check` wrapper runs the binary in (normally /verif;
+/// a snapshot of it under `vp run`)
+pub fn verif_root() -> PathBuf {
+    static ROOT: std::sync::OnceLock<PathBuf> = std::sync::OnceLock::new();
+    ROOT.get_or_init(|| {
+        let cwd = std::env::current_dir().unwrap_or_else(|_| PathBuf::from("/verif"));
+        if cwd.join("properties.jsonl").exists() {
+            cwd
+        } else {
+            PathBuf::from("/verif")
+        }
+    })
+    .clone()
+}
 
 #[derive(Clone, Copy, Debug, PartialEq, Eq)]
 pub enum Tier {
@@ -256,7 +269,7 @@ pub fn start_case_watchdog(prop: &'static str, budget_s: u64) {
             if let Some((t0, ptr, enc, sub)) = *guard {
                 if t0.elapsed().as_secs() >= budget_s {
                     let case = enc(ptr);
-                    let dir = Path::new(VERIF_ROOT).join("replays");
+                    let dir = verif_root().join("replays");
                     let _ = std::fs::create_dir_all(&dir);
                     let path = dir.join(format!("{}-watchdog-{}.json", prop, sub));
                     let doc = json!({"property": prop, "subcheck": sub, "case": case, "observed": format!("case did not finish within {} s", budget_s)});
@@ -310,7 +323,7 @@ pub struct Journal {
 
 impl Journal {
     pub fn path(prop: &str) -> PathBuf {
-        Path::new(VERIF_ROOT).join(format!("harness/target/journal-{}.json", prop))
+        verif_root().join(format!("harness/target/journal-{}.json", prop))
     }
     fn open(prop: &str) -> Journal {
         let p = Self::path(prop);
@@ -353,7 +366,7 @@ pub struct KnownFinding {
 }
 
 pub fn load_known_findings() -> Vec<KnownFinding> {
-    let p = Path::new(VERIF_ROOT).join("known_findings.json");
+    let p = verif_root().join("known_findings.json");
     let txt = match std::fs::read_to_string(&p) {
         Ok(t) => t,
         Err(_) => return vec![],
@@ -509,7 +522,7 @@ impl Ctx {
         }
         let mut h = DefaultHasher::new();
         f.case.to_string().hash(&mut h);
-        let dir = Path::new(VERIF_ROOT).join("replays");
+        let dir = verif_root().join("replays");
         let _ = std::fs::create_dir_all(&dir);
         let path = dir.join(format!("{}-{}-{:012x}.json", self.prop, sub, h.finish() & 0xffff_ffff_ffff));
         let doc = json!({
@@ -881,7 +894,7 @@ impl Ctx {
     }
 
     pub fn write_evidence(&self) {
-        let dir = Path::new(VERIF_ROOT).join("evidence");
+        let dir = verif_root().join("evidence");
         let _ = std::fs::create_dir_all(&dir);
         let p = dir.join(format!("{}.json", self.prop));
         let _ = std::fs::write(&p, serde_json::to_string_pretty(&self.evidence()).unwrap() + "\n");
